@@ -27,6 +27,7 @@ import (
 	"istio.io/istio/pilot/pkg/xds/endpoints"
 	"istio.io/istio/pkg/config/host"
 	"istio.io/istio/pkg/config/schema/kind"
+	"istio.io/istio/pkg/simhook"
 	"istio.io/istio/pkg/slices"
 	"istio.io/istio/pkg/util/sets"
 )
@@ -255,6 +256,7 @@ func (eds *EdsGenerator) buildEndpoints(proxy *model.Proxy,
 			}
 		}
 
+		simhook.Yield("cache.miss", proxy.ID, clusterName)
 		l := builder.BuildClusterLoadAssignment(eds.EndpointIndex)
 		regenerated++
 
@@ -266,6 +268,7 @@ func (eds *EdsGenerator) buildEndpoints(proxy *model.Proxy,
 			Resource: protoconv.MessageToAny(l),
 		}
 		resources = append(resources, resource)
+		simhook.Yield("cache.beforeAdd", proxy.ID, clusterName)
 		eds.Cache.Add(&builder, req, resource)
 	}
 	return resources, model.XdsLogDetails{
